@@ -159,6 +159,7 @@ func (sp *Specs) loadSpecFile(path string) error {
 	sp.Files = append(sp.Files, path)
 	var cur *FuncSpec
 	var curCb *FuncSpec
+	var scope []string
 	// join continuation lines
 	type stmt struct {
 		text string
@@ -171,7 +172,7 @@ func (sp *Specs) loadSpecFile(path string) error {
 			stmts = append(stmts, stmt{strings.TrimSpace(t), nums[i]})
 			continue
 		}
-		if w == "spec" || w == "owned" || w == "predicate" || w == "prove" || w == "protected" || w == "onwrite" || w == "ghost" || w == "ghostfield" || w == "specfunc" || w == "lemma" || clauseKeywords[w] {
+		if w == "scope" || w == "spec" || w == "owned" || w == "predicate" || w == "prove" || w == "protected" || w == "onwrite" || w == "ghost" || w == "ghostfield" || w == "specfunc" || w == "lemma" || clauseKeywords[w] {
 			stmts = append(stmts, stmt{strings.TrimSpace(t), nums[i]})
 		} else if len(stmts) > 0 {
 			stmts[len(stmts)-1].text += " " + strings.TrimSpace(t)
@@ -194,6 +195,10 @@ func (sp *Specs) loadSpecFile(path string) error {
 			return fmt.Errorf("%s:%d: %s", path, s.line, fmt.Sprintf(format, a...))
 		}
 		switch w {
+		case "scope":
+			// the specs that follow in this file replace the general contract of
+			// the same function for callers in the named packages only
+			scope = strings.Fields(rest)
 		case "spec":
 			key := rest
 			var params []string
@@ -212,11 +217,21 @@ func (sp *Specs) loadSpecFile(path string) error {
 			if pkg != "" && !strings.Contains(strings.SplitN(key, "(", 2)[0], ".") {
 				key = pkg + "." + key
 			}
+			cur = &FuncSpec{Key: key, File: path, Line: s.line, Params: params, Loops: map[int]*LoopSpec{}, Callbacks: map[string]*FuncSpec{}}
+			curCb = nil
+			if len(scope) > 0 {
+				for _, sc := range scope {
+					k := "@" + sc + ":" + key
+					if _, dup := sp.Funcs[k]; dup {
+						return errf("duplicate spec %s", k)
+					}
+					sp.Funcs[k] = cur
+				}
+				break
+			}
 			if _, dup := sp.Funcs[key]; dup {
 				return errf("duplicate spec %s", key)
 			}
-			cur = &FuncSpec{Key: key, File: path, Line: s.line, Params: params, Loops: map[int]*LoopSpec{}, Callbacks: map[string]*FuncSpec{}}
-			curCb = nil
 			sp.Funcs[key] = cur
 		case "owned":
 			te, err := parseExpr(strings.TrimSpace(rest))
